@@ -29,6 +29,11 @@ def toF : Diff Float → Float
 def gapTest (agap : Float) (mx lb : Diff Float) : Bool :=
   decide (agap > 0) && decide (toF lb > 0) && decide (toF mx - toF lb ≤ agap)
 
+/-- a caller's own difficulty function with non-positive values: `-(w - l) / t` (Python: an int negated and divided by
+an int = the correctly rounded quotient, as here) -/
+def negMargin (winner loser _other total : Nat) : Float :=
+  -(Float.ofNat (winner - loser)) / Float.ofNat total
+
 def ltStrs : List String → List String → Bool
   | [], [] => false
   | [], _ :: _ => true
@@ -80,6 +85,7 @@ def handle (op : String) (a : Json) : R Json := do
       let asn ← match (← strF a "asn") with
         | "cp" => pure cpEstimate
         | "bp" => pure bpEstimate
+        | "nm" => pure negMargin
         | s => throw s!"unknown asn {s}"
       let C : Contest String := { candidates := cands, totBallots := tot, outcome := outcome }
       -- "agap": the bits of the float64 handed to the real code (absent = the default 0)
